@@ -94,6 +94,7 @@ func (a *Adversary) act() {
 			m = 0
 		}
 		a.mode[hh] = m
+		s.fault([]string{"adv:mode_random_actions", "adv:mode_yes_man", "adv:mode_equivocating_primary_yes_man"}[m])
 		for k := range a.mode {
 			if k+4 < hh {
 				delete(a.mode, k)
